@@ -224,7 +224,7 @@ TEMPLATES = [t_nested_parens, t_nested_lists, t_add_run, t_mul_units_run, t_pow_
 
 EXTREME_LITERALS = [
     "1e308 * 10", "1e-320 / 1e10", "2^1024", "2^-1080", "(-8)^(1/3)", "0^0", "0^-1", "(1 m)^1e30", "((m/cm)^1e30)^1e30",
-    "(m^2)^(0.1+0.2)", "m^(1/3) * m^(2/3)", "x^(2^126)", "fn vf_p(x) = x^(2^126) * x^(2^126)", "1e400", "1e-400", "9" * 400,
+    "(m^2)^(0.1+0.2)", "(1 m)^1e30 * (m^2)^(0.1+0.2)", "m^(1/3) * m^(2/3)", "x^(2^126)", "fn vf_p(x) = x^(2^126) * x^(2^126)", "1e400", "1e-400", "9" * 400,
     "0." + "0" * 400 + "1", "0x" + "F" * 40, "0b" + "1" * 200, "1_0_0_0", "1e+", "1e+400 m", "(1e200 m)^2 * (1e200 m)^2",
     "sqrt(-1 m^2)", "ln(0)", "1 / (0 m)", "mod(5, 0)", "mod(5 m, 0 m)", "gamma(-1)", "gamma(171.7)", "170!", "171!", "1000!", "(-1)!", "2.5!",
     "3!!", "10!!!", "range(1, 0)", "random()", "round(1e300)",
@@ -249,6 +249,7 @@ EXTREME_LITERALS = [
     "fn vf_s3(xs) = if is_empty(xs) then 0 else sum(map(vf_s3, [tail(xs)]))\nvf_s3([1, 2])", "fn vf_s4(x) = [vf_s4]\nvf_s4(1)",
     "fn vf_s5(x) = y where y = vf_s5", "fn vf_s6(f, x) = f(vf_s6, x)",
     "(if 1 m > 0 m then sin else cos)(0)", "fn vf_s7(y) = (if y > 0 m then vf_s7 else abs)(y)", "(if true then [sqrt][0 m] else sin)(1)",
+    "range(-1, NaN)", "range(NaN, 3)", "linspace(0, 1, 2.5)", "linspace(0, 1, NaN)", "linspace(0 m, 1 m, 1)",
     "gcd(60, inf)", "gcd(NaN, 1)", "lcm(inf, 2)", "gcd(1e300, 7)", "gcd(0.5, 0.25)", "mod(inf, 60)", "mod(60, inf)", "mod(NaN, NaN)",
     "?", "??", "? + 1 m", "1 + ?", "let x: ? = 1", "…", "1 … 2", "...", "1 +\n2", "1\n+ 2", "(\n1\n)", "[\n1,\n2\n]", "fn f(\nx\n) = x",
 ]
